@@ -20,7 +20,8 @@ CONSTANTS Ks, MaxRep
 C == INSTANCE DetCfg WITH cfg <- <<>>, pc <- 0       \* only its constant-level operators are used here
 
 VARIABLES dis,      \* the rejected Observe events, in order
-          invalid   \* number of events whose cfg is not a configuration of DetCfg
+          invalid,  \* number of events whose cfg is not a configuration of DetCfg
+          unordered \* number of events that come before an observation of the same input nearer to the baseline
 
 DigestOk(d) == /\ Len(d) = 4
                /\ \/ \A i \in 1..4 : d[i] = -1
@@ -30,30 +31,35 @@ SetToSeq(S) == LET RECURSIVE F(_)
                    F(T) == IF T = {} THEN <<>> ELSE LET x == CHOOSE y \in T : TRUE IN <<x>> \o F(T \ {x})
                IN F(S)
 
-DetInit == Init /\ dis = <<>> /\ invalid = 0
+DetInit == Init /\ dis = <<>> /\ invalid = 0 /\ unordered = 0
 
 DetObserve ==
   /\ StepObserve
   /\ LET e == Trc[l]
          ok == C!Valid(e.cfg) /\ DigestOk(e.digest)
      IN /\ invalid' = IF ok THEN invalid ELSE invalid + 1
+        /\ unordered' = IF ok /\ Known(e.input) /\ C!Valid(who[e.input]) /\ C!Dist(e.cfg) < C!Dist(who[e.input])
+                        THEN unordered + 1 ELSE unordered
         /\ dis' = IF Agrees(e.input, e.digest) \/ ~ok THEN dis
                   ELSE Append(dis, [event |-> l, input |-> e.input,
                                     cfg |-> C!Id(e.cfg), first |-> C!Id(who[e.input]),
                                     axes |-> SetToSeq(C!DiffAxes(who[e.input], e.cfg)),
                                     image |-> IF C!SameImage(who[e.input], e.cfg) THEN "same" ELSE "differs"])
 
-DetReset  == StepReset /\ UNCHANGED <<dis, invalid>>
+DetReset  == StepReset /\ UNCHANGED <<dis, invalid, unordered>>
 
 DetFinish == /\ l = Len(Trc) + 1
              /\ PrintT("DET " \o ToJson([events |-> Len(Trc), inputs |-> Cardinality(DOMAIN seen),
                                           invalid |-> invalid, disagreements |-> dis]))
-             /\ l' = l + 1 /\ UNCHANGED <<seen, who, bad, dis, invalid>>
+             /\ l' = l + 1 /\ UNCHANGED <<seen, who, bad, dis, invalid, unordered>>
 
 DetNext == DetObserve \/ DetReset \/ DetFinish
-DetSpec == DetInit /\ [][DetNext]_<<l, seen, who, bad, dis, invalid>>
+DetSpec == DetInit /\ [][DetNext]_<<l, seen, who, bad, dis, invalid, unordered>>
 
 ValidCfgs  == invalid = 0
+(* the reported `first' of an input is its observation nearest to the baseline (the harness feeds them in that order), *)
+(* so that the axes named in a report are as few as the runs allow                                                    *)
+NearestFirst == unordered = 0
 (* the monitor's own guarantee: what was seen first for an input is never replaced *)
 FirstStays == [][\A i \in DOMAIN who : i \in DOMAIN who' => who'[i] = who[i]]_<<who>>
 =============================================================================
